@@ -85,6 +85,12 @@ def check_C03(res, tier, seed, replay):
         if r['violated']:
             raise vlib.HarnessError('MC_ParRegion violated\n' + r['out'][-3000:])
         res.add_mc('ParRegion.tla: parallel_reduce with cycle_min / pruning body returns a global minimum under every schedule tree and every interleaving of runnable tasks; small-step machine = recursive Eval', r)
+        try:
+            nob, npr = vlib.tlaps('ReduceAlgebra')
+        except Exception as e:      # the proof layer is an extra: a prover timeout must not break the check
+            nob, npr = 0, 0
+            res.cov['tlaps_error'] = str(e)[-300:]
+        res.cov['tlaps'] = {'module': 'ReduceAlgebra.tla', 'obligations': nob, 'discharged': npr, 'checker_cmd': 'tlapm ReduceAlgebra.tla', 'what': 'join function cycle_min: neutral identity, associativity, minimum, left bias (unbounded)'}
         exe = harness_vtbb()
         NR, NF = (5, 4) if tier == 'quick' else (6, 5)
         sched, nr, nf = gen_schedules(wd, NR, NF, rng)
